@@ -212,6 +212,136 @@ theorem mpz_lcm_small_alloc_safe_partial (s : St) (r u v gid : Nat) (hs : s.ok =
 example : let s := mpz_lcm ex6 0 2 1 3; s.ok = true ∧ view (s.h 0) = ⟨3, 3, [B - 2, B - 1, 1]⟩ := by decide
 example : let s := mpz_lcm ex6 1 0 1 3; s.ok = true ∧ view (s.h 1) = ⟨2, 0, []⟩ := by decide
 
+/-- mpz_lcm, the general arm (lcm.c:73-83): mpz_gcd, mpz_divexact and mpz_mul as object-level callees on the temporary g, whose
+    TMP block of MAX (usize, vsize) limbs is never reallocated -/
+theorem lcmGeneral_safe (s : St) (r u v gid : Nat) (hs : s.ok = true) (hr : OWF (s.h r)) (hu : OWF (s.h u)) (hv : OWF (s.h v))
+    (hgr : gid ≠ r) (hgu : gid ≠ u) (hgv : gid ≠ v)
+    (hu2 : 2 ≤ (s.h u).size.natAbs) (hv2 : 2 ≤ (s.h v).size.natAbs) :
+    ∃ m, Safe s (mpz_lcm s r u v gid) r m ∧
+      Mpz.toInt m = (Nat.lcm (val (view (s.h u)).d) (val (view (s.h v)).d) : Nat) := by
+  have c1 : ¬ (s.h u).size = 0 := by omega
+  have c2 : ¬ (s.h v).size = 0 := by omega
+  have c3 : ¬ (s.h u).size.natAbs = 1 := by omega
+  have c4 : ¬ (s.h v).size.natAbs = 1 := by omega
+  have hz : ((s.h u).size == 0 || (s.h v).size == 0) = false := by simp [c1, c2]
+  have c3' : ((s.h u).size.natAbs == 1) = false := by simpa using c3
+  have c4' : ((s.h v).size.natAbs == 1) = false := by simpa using c4
+  unfold mpz_lcm lcm_
+  simp only [St.SIZ, hz, c3', c4', Bool.false_eq_true, if_false]
+  generalize hsz : max (s.h u).size.natAbs (s.h v).size.natAbs = size
+  generalize hs0 : ({ s with h := upd s.h gid ⟨0, 0, Buf.new size⟩ } : St) = s0
+  have h0o : ∀ x, x ≠ gid → s0.h x = s.h x := by intro x hx; rw [← hs0]; exact upd_other _ _ hx
+  have h0g : s0.h gid = ⟨0, 0, Buf.new size⟩ := by rw [← hs0]; simp
+  have h0ok : s0.ok = true := by rw [← hs0]; exact hs
+  have hg0 : OWF (s0.h gid) := by
+    rw [h0g]; exact ⟨BWF_new _, by simp [view, Mpz.WF, Buf.new, Limbs]; omega⟩
+  have hu0 : OWF (s0.h u) := by rw [h0o u hgu.symm]; exact hu
+  have hv0 : OWF (s0.h v) := by rw [h0o v hgv.symm]; exact hv
+  have eu : s0.h u = s.h u := h0o u hgu.symm
+  have ev : s0.h v = s.h v := h0o v hgv.symm
+  -- mpz_gcd (g, u, v)
+  obtain ⟨R, r1, r2, r3⟩ := gcdGeneral_refines s0 gid u v h0ok hg0 hu0 hv0 (by rw [eu]; exact hu2) (by rw [ev]; exact hv2)
+  have hK := mpz_gcd_genOk s0 gid u v gid (by rw [eu]; exact hu2) (by rw [ev]; exact hv2)
+  rw [eu, ev] at r3
+  generalize mpz_gcd s0 gid u v = s1 at *
+  have hUpos : 0 < val (view (s.h u)).d :=
+    Mpz.Norm.pos ⟨view_limbs hu, hu.2.2.2.2.2⟩ (by intro e; have := view_d_length hu; rw [e] at this; simp at this; omega)
+  have hUlt : val (view (s.h u)).d < B ^ (s.h u).size.natAbs := by
+    have := val_lt _ (view_limbs hu); rwa [view_d_length hu] at this
+  have hgpos : 0 < val R := by rw [r3]; exact Nat.gcd_pos_of_pos_left _ hUpos
+  have hRne : R ≠ [] := by intro e; rw [e] at hgpos; simp [val] at hgpos
+  have hRlen : R.length ≤ (s.h u).size.natAbs := by
+    by_contra hc
+    have hRL : Limbs R := r2.2.2.2.1
+    have hRN : R.getLast? ≠ some 0 := r2.2.2.2.2
+    have h1 := Mpz.Norm.lower ⟨hRL, hRN⟩ hRne
+    have h2 : B ^ (s.h u).size.natAbs ≤ B ^ (R.length - 1) := Nat.pow_le_pow_right B_pos (by omega)
+    have h3 : val R ≤ val (view (s.h u)).d := by rw [r3]; exact Nat.gcd_le_left _ hUpos
+    omega
+  have hR1 : 1 ≤ R.length := by
+    rcases R with _ | ⟨a, t⟩
+    · exact absurd rfl hRne
+    · simp
+  have hv1 := r1.view
+  have ha1 : (s1.h gid).buf.alloc = size := by
+    have : (view (s1.h gid)).alloc = max (s0.h gid).buf.alloc R.length := by rw [hv1]
+    simp only [view, h0g, Buf.new] at this; rw [this]; omega
+  have hsz1 : (s1.h gid).size = (R.length : Nat) := by
+    have : (view (s1.h gid)).size = (R.length : Nat) := by rw [hv1]
+    simpa [view] using this
+  have hgen1 : (s1.h gid).gen = 0 := by
+    rcases hK with ⟨h, _⟩ | h
+    · rw [h, h0g]
+    · rw [ha1, h0g] at h; simp [Buf.new] at h
+  have hg1 : OWF (s1.h gid) := ⟨r1.bwf, by rw [hv1]; exact r2⟩
+  have e1 : ∀ x, x ≠ gid → s1.h x = s.h x := fun x hx => (r1.frame x hx).trans (h0o x hx)
+  have hu1 : OWF (s1.h u) := by rw [e1 u hgu.symm]; exact hu
+  -- mpz_divexact (g, u, g)
+  obtain ⟨d1, d2, d3, d4, d5, d6⟩ := divexact_tmp s1 gid u r1.ok hg1 hu1
+    (by rw [hsz1, e1 u hgu.symm]; simpa using hRlen) (by rw [hsz1]; simpa using hR1)
+    (by rw [hsz1, e1 u hgu.symm, ha1]; simp only [Int.natAbs_natCast]; omega)
+  have hd6 : (Mpz.toInt (view ((divexact s1 gid u gid).h gid))).natAbs =
+      val (view (s.h u)).d / Nat.gcd (val (view (s.h u)).d) (val (view (s.h v)).d) := by
+    rw [d6, e1 u hgu.symm, hv1, r3]
+  generalize divexact s1 gid u gid = s2 at *
+  have hc : ((s2.h gid).gen == 0) = true := by rw [d4, hgen1]; rfl
+  rw [hc, chk_true]
+  have e2 : ∀ x, x ≠ gid → s2.h x = s.h x := fun x hx => (d3 x hx).trans (e1 x hx)
+  -- mpz_mul (r, g, v)
+  obtain ⟨M, mv⟩ := mpz_mul_alloc_safe 17 s2 r gid v d1 (by rw [e2 r hgr.symm]; exact hr) d2 (by rw [e2 v hgv.symm]; exact hv)
+  have emul : mpz_mul s2 r gid v = mul 17 true 1 s2 r gid v := rfl
+  rw [emul]
+  generalize mul 17 true 1 s2 r gid v = s4 at *
+  obtain ⟨m1, m2, m3, m4⟩ := M
+  refine ⟨⟨(s4.h r).buf.alloc, ((s4.h r).size.natAbs : Nat), (view (s4.h r)).d⟩, ⟨m1, ?_, ?_, ?_⟩, ?_⟩
+  · -- r well formed
+    have hx : ({ (s4.setSize r ((s4.h r).size.natAbs : Nat)) with
+        h := upd (s4.setSize r ((s4.h r).size.natAbs : Nat)).h gid (s.h gid) } : St).h r =
+        (s4.setSize r ((s4.h r).size.natAbs : Nat)).h r := upd_other _ _ hgr.symm
+    rw [hx]
+    obtain ⟨w1, w2, w3, w4, w5⟩ := m2.2
+    refine ⟨by simpa using m2.1, ?_⟩
+    simp only [view, St.setSize, upd_same, Int.natAbs_natCast] at w1 w2 w3 w4 w5 ⊢
+    exact ⟨w1, w2, w3, w4, w5⟩
+  · intro x hx
+    by_cases hxg : x = gid
+    · subst hxg; simp [upd]
+    · show (upd (s4.setSize r ((s4.h r).size.natAbs : Nat)).h gid (s.h gid)) x = s.h x
+      rw [upd_other _ _ hxg, setSize_other _ _ _ hx, m3 x hx, e2 x hxg]
+  · show view ((upd (s4.setSize r ((s4.h r).size.natAbs : Nat)).h gid (s.h gid)) r) = _
+    rw [upd_other _ _ hgr.symm]
+    simp [view, St.setSize, Int.natAbs_abs]
+  · have hmv : (Mpz.toInt (view (s4.h r))).natAbs =
+        val (view (s.h u)).d / Nat.gcd (val (view (s.h u)).d) (val (view (s.h v)).d) * val (view (s.h v)).d := by
+      rw [mv, Int.natAbs_mul, hd6, e2 v hgv.symm, toInt_natAbs']
+    rw [toInt_natAbs'] at hmv
+    have : Mpz.toInt ⟨(s4.h r).buf.alloc, ((s4.h r).size.natAbs : Nat), (view (s4.h r)).d⟩ = (val (view (s4.h r)).d : Nat) := by
+      simp [Mpz.toInt]
+    rw [this, hmv]
+    congr 1
+    obtain ⟨k, hk⟩ := Nat.gcd_dvd_left (val (view (s.h u)).d) (val (view (s.h v)).d)
+    have hg' : 0 < Nat.gcd (val (view (s.h u)).d) (val (view (s.h v)).d) := Nat.gcd_pos_of_pos_left _ hUpos
+    unfold Nat.lcm
+    generalize Nat.gcd (val (view (s.h u)).d) (val (view (s.h v)).d) = gg at *
+    rw [hk, Nat.mul_div_cancel_left _ hg', Nat.mul_assoc, Nat.mul_div_cancel_left _ hg']
+
+/-- mpz_lcm (mpz/lcm.c), EVERY arm, every heap, every allocation of r, every alias pattern among r, u, v (the temporary g is a
+    heap id different from them): `ok` stays true — in particular the limbs of g, `MPZ_TMP_INIT (g, MAX (usize, vsize))` TMP
+    memory, are never handed to the reallocation function: mpz_gcd needs at most min (usize, vsize) limbs (its result divides
+    u), mpz_divexact (g, u, g) requests usize - gsize + 1 ≤ usize limbs and goes through its own temporary quotient because
+    quot == den —, r ends well formed and non-negative (`SIZ (r) = ABS (SIZ (r))` after mpz_mul, which sizes r itself), every
+    other variable is unchanged (what was at g's id is restored: TMP_FREE), and the value is lcm (|u|, |v|).
+    Callees by contract: mpn_gcd_1 / mpn_gcd (value, C07), mpn_divexact (exactly nn - dn + 1 quotient limbs, value num / den),
+    mpn_mul (C01, through `mpz_mul_alloc_safe`). -/
+theorem mpz_lcm_alloc_safe (s : St) (r u v gid : Nat) (hs : s.ok = true)
+    (hr : OWF (s.h r)) (hu : OWF (s.h u)) (hv : OWF (s.h v)) (hgr : gid ≠ r) (hgu : gid ≠ u) (hgv : gid ≠ v) :
+    ∃ m, Safe s (mpz_lcm s r u v gid) r m ∧
+      Mpz.toInt m = (Nat.lcm (Mpz.toInt (view (s.h u))).natAbs (Mpz.toInt (view (s.h v))).natAbs : Nat) := by
+  by_cases hsmall : (s.h u).size.natAbs ≤ 1 ∨ (s.h v).size.natAbs ≤ 1
+  · exact mpz_lcm_small_alloc_safe_partial s r u v gid hs hr hu hv hsmall
+  · rw [toInt_natAbs, toInt_natAbs]
+    exact lcmGeneral_safe s r u v gid hs hr hu hv hgr hgu hgv (by omega) (by omega)
+
 /-! ## mpz_gcd (mpz/gcd.c) -/
 
 /-- mpz_gcd (mpz/gcd.c), the arms before TMP_MARK (gcd.c:44-77: u = 0, v = 0, u of one limb, v of one limb), every allocation and
@@ -292,6 +422,26 @@ example : let s := gcdTail 0 false ex6 0 [1] 1 63; s.ok = true ∧ view (s.h 0) 
 -- negative: one limb less requested; the carry limb stored although it was not counted
 example : (gcdTail 1 false ex6 0 [3] 1 63).ok = false := by decide
 example : (gcdTail 0 true ex6 0 [1] 1 63).ok = false := by decide
+
+/-- mpz_gcd (mpz/gcd.c), EVERY arm, every heap, every allocation of g, every alias pattern (g may be u and / or v, u may be v):
+    `ok` stays true (no load or store outside a block or through a stale pointer, no TMP block overrun), g ends well formed,
+    every other variable is unchanged, and the value is gcd (|u|, |v|).  The general arm (gcd.c:79-155) composes `stripLow_spec`
+    (the TMP copies hold the odd parts u', v' with u = u' << (64 * u_zero_limbs + u_zero_bits), and fit their blocks), the callee
+    mpn_gcd by its contract as the model states it (value gcd (u', v') — C07 `mpn_gcd_correct` —, stored normalised at vp: that
+    these limbs fit vp's block is PROVED here from gcd (u', v') ≤ v', not assumed) and `gcdTail_refines` (the re-shift:
+    `MPZ_REALLOC (g, gsize)` covers the zero limbs, the shifted limbs and the conditional `cy_limb`; the top limb stored is
+    non-zero; the value is G << (64 * g_zero_limbs + g_zero_bits)), with
+    gcd (u' << a, v' << b) = gcd (u', v') << min (a, b) for odd u', v'. -/
+theorem mpz_gcd_alloc_safe (s : St) (g u v : Nat) (hs : s.ok = true)
+    (hg : OWF (s.h g)) (hu : OWF (s.h u)) (hv : OWF (s.h v)) :
+    ∃ m, Safe s (mpz_gcd s g u v) g m ∧
+      Mpz.toInt m = (Nat.gcd (Mpz.toInt (view (s.h u))).natAbs (Mpz.toInt (view (s.h v))).natAbs : Nat) := by
+  by_cases hsmall : (s.h u).size.natAbs ≤ 1 ∨ (s.h v).size.natAbs ≤ 1
+  · exact mpz_gcd_small_alloc_safe_partial s g u v hs hg hu hv hsmall
+  · obtain ⟨R, r1, r2, r3⟩ := gcdGeneral_refines s g u v hs hg hu hv (by omega) (by omega)
+    refine ⟨_, r1.safe r2, ?_⟩
+    rw [toInt_natAbs, toInt_natAbs, ← r3]
+    simp [Mpz.toInt]
 
 -- gcd (B^2 - 1, 6) = 3 into variable 0 and over v; gcd (0, v) copies; in place nothing is reallocated
 example : let s := mpz_gcd ex6 0 1 2; s.ok = true ∧ view (s.h 0) = ⟨1, 1, [3]⟩ := by decide
